@@ -15,21 +15,26 @@ Section TyInd.
   Hypothesis HArr : forall n t, P t -> P (TArr n t).
   Hypothesis HStruct : forall id fs, Forall P fs -> P (TStruct id fs).
   Hypothesis HVar : forall n, P (TVar n).
+  Hypothesis HEnum : forall id vs, Forall P vs -> P (TEnum id vs).
+  Hypothesis HOpt : forall t, P t -> P (TOpt t).
+  Hypothesis HErr : forall e t, P e -> P t -> P (TErr e t).
 
   Fixpoint ty_ind' (t : ty) : P t :=
+    let go := fix go (l : list ty) : Forall P l :=
+                match l with
+                | [] => Forall_nil P
+                | x :: r => Forall_cons x (ty_ind' x) (go r)
+                end in
     match t with
     | TInt i => HInt i
     | TBool => HBool
     | TVoid => HVoid
     | TArr n u => HArr n u (ty_ind' u)
-    | TStruct id fs =>
-        HStruct id fs
-          ((fix go (l : list ty) : Forall P l :=
-              match l with
-              | [] => Forall_nil P
-              | x :: r => Forall_cons x (ty_ind' x) (go r)
-              end) fs)
+    | TStruct id fs => HStruct id fs (go fs)
     | TVar n => HVar n
+    | TEnum id vs => HEnum id vs (go vs)
+    | TOpt u => HOpt u (ty_ind' u)
+    | TErr e u => HErr e u (ty_ind' e) (ty_ind' u)
     end.
 End TyInd.
 
@@ -40,6 +45,7 @@ Section ValueInd.
   Hypothesis HUnit : P VUnit.
   Hypothesis HArr : forall vs, Forall P vs -> P (VArr vs).
   Hypothesis HStruct : forall vs, Forall P vs -> P (VStruct vs).
+  Hypothesis HSum : forall k v, P v -> P (VSum k v).
 
   Fixpoint value_ind' (v : value) : P v :=
     let go := fix go (l : list value) : Forall P l :=
@@ -53,6 +59,7 @@ Section ValueInd.
     | VUnit => HUnit
     | VArr vs => HArr vs (go vs)
     | VStruct vs => HStruct vs (go vs)
+    | VSum k u => HSum k u (value_ind' u)
     end.
 End ValueInd.
 
@@ -70,10 +77,13 @@ Proof. intros A n. destruct n; reflexivity. Qed.
 
 Theorem tsubst_nil : forall t, tsubst [] t = t.
 Proof.
-  induction t using ty_ind'; cbn [tsubst]; try reflexivity.
-  - rewrite IHt. reflexivity.
-  - rewrite (map_id_Forall _ _ _ H). reflexivity.
-  - rewrite nth_error_nil. reflexivity.
+  induction t using ty_ind'; cbn [tsubst]; try reflexivity;
+    rewrite ?nth_error_nil;
+    repeat match goal with
+           | H : tsubst [] _ = _ |- _ => rewrite H; clear H
+           | H : Forall _ _ |- _ => rewrite (map_id_Forall _ _ _ H); clear H
+           end;
+    reflexivity.
 Qed.
 
 Theorem tsubst_closed : forall ts t, tsubst [] (tsubst ts t) = tsubst ts t.
@@ -127,7 +137,7 @@ Proof. exists ([], [VBool true]), (CRef 0). cbn. discriminate. Qed.
 (* ---------------------------------------------------------- list helpers *)
 Lemma nonlet_subst : forall s e, nonlet e -> nonlet (subst s e).
 Proof.
-  intros s e H. destruct e; cbn [subst nonlet] in *; try exact I; try exact H.
+  intros s e H. destruct e; cbn [subst nonlet] in *; try exact I; try contradiction.
   destruct (nth_error (snd s) n) as [[]|]; exact I.
 Qed.
 
@@ -138,7 +148,32 @@ Lemma eval_stmts_nonlet : forall ev en out s0 ss tail,
     | Res en1 out1 (CVal _) => eval_stmts ev en1 out1 ss tail
     | r => r
     end.
-Proof. intros ev en out s0 ss tail H. destruct s0; try reflexivity. contradiction. Qed.
+Proof. intros ev en out s0 ss tail H. destruct s0; try reflexivity; contradiction. Qed.
+
+(* one move on a goal [match x with .. end = match x' with .. end] *)
+Ltac sub_destruct_head :=
+  match goal with
+  | |- (match ?y with _ => _ end) = _ => destruct y
+  end.
+
+(* inside a block: a sub-evaluation by [ev] is turned into the sub-evaluation of
+   the substituted code by [ev'] (hypothesis [Hev]), the rest of the block is
+   handled by the induction hypothesis [IH], then both sides are destructed *)
+Ltac stmts_sub_go ev Hev IH :=
+  cbv beta iota;
+  first
+    [ reflexivity
+    | apply Hev
+    | apply IH
+    | match goal with
+      | |- (match ?x with _ => _ end) = _ =>
+          lazymatch x with
+          | ev ?en ?out ?a => rewrite (Hev en out a)
+          | eval_stmts ev ?en ?out ?ss ?tl => rewrite (IH tl en out)
+          | _ => idtac
+          end;
+          sub_destruct_head; stmts_sub_go ev Hev IH
+      end ].
 
 Section EvSubst.
   Variable s : senv.
@@ -172,12 +207,10 @@ Section EvSubst.
         destruct (ev' en out (subst s s0)) as [en1 out1 c| | | |]; try reflexivity.
         destruct c; try reflexivity.
         apply IH. }
-      destruct s0; try (apply Hoth; exact I).
-      cbn [subst eval_stmts].
-      rewrite (Hev en out s0).
-      destruct (ev' en out (subst s s0)) as [en1 out1 c| | | |]; try reflexivity.
-      destruct c; try reflexivity.
-      rewrite IH. reflexivity.
+      (* [let] (binding popped afterwards) and [defer] (the rest of the block
+         first, then the deferred expression) *)
+      destruct s0; try (apply Hoth; exact I);
+        cbn [subst eval_stmts]; stmts_sub_go ev Hev IH.
   Qed.
 
   Lemma eval_place_subst : forall e en out,
@@ -199,13 +232,8 @@ End EvSubst.
 (* one move on a goal [match x with .. end = match x' with .. end]: a
    sub-evaluation under [s] is turned into the sub-evaluation of the substituted
    code under the empty comptime environment, then both sides are destructed *)
-Ltac sub_destruct_head :=
-  match goal with
-  | |- (match ?y with _ => _ end) = _ => destruct y
-  end.
-
 Ltac sub_go rec s Hrec :=
-  cbv beta iota;
+  cbv beta iota delta [option_map];
   first
     [ reflexivity
     | apply Hrec
@@ -219,6 +247,7 @@ Ltac sub_go rec s Hrec :=
               rewrite (eval_stmts_subst s (rec s) (rec ([], [])) Hrec ss tl en out)
           | eval_place (rec s) ?en ?out ?a =>
               rewrite (eval_place_subst s (rec s) (rec ([], [])) Hrec a en out)
+          | nth_error _ _ => rewrite ?nth_error_map
           | _ => idtac
           end;
           sub_destruct_head; sub_go rec s Hrec
@@ -392,24 +421,25 @@ Qed.
 Lemma ty_eqb_eq : forall a b, ty_eqb a b = true <-> a = b.
 Proof.
   intros a. induction a using ty_ind'; intros b; destruct b; cbn [ty_eqb];
-    try (split; discriminate); try (split; reflexivity).
-  - rewrite ity_eqb_eq. split; congruence.
-  - rewrite andb_true_iff, Nat.eqb_eq, IHa.
-    split; [intros [-> ->]; reflexivity | intros E; inversion E; auto].
-  - rewrite andb_true_iff, Nat.eqb_eq, (list_eqb_eq _ _ _ H).
-    split; [intros [-> ->]; reflexivity | intros E; inversion E; auto].
-  - rewrite Nat.eqb_eq. split; congruence.
+    try (split; discriminate); try (split; reflexivity);
+    rewrite ?andb_true_iff, ?Nat.eqb_eq, ?ity_eqb_eq;
+    repeat match goal with
+           | H : forall b, ty_eqb _ b = true <-> _ |- _ => rewrite H; clear H
+           | H : Forall _ _ |- _ => rewrite (list_eqb_eq _ _ _ H); clear H
+           end;
+    (split; [intuition congruence | intros E; inversion E; auto]).
 Qed.
 
 Lemma value_eqb_eq : forall a b, value_eqb a b = true <-> a = b.
 Proof.
   intros a. induction a using value_ind'; intros w; destruct w; cbn [value_eqb];
-    try (split; discriminate); try (split; reflexivity).
-  - rewrite andb_true_iff, ity_eqb_eq, Z.eqb_eq.
-    split; [intros [-> ->]; reflexivity | intros E; inversion E; auto].
-  - rewrite Bool.eqb_true_iff. split; congruence.
-  - rewrite (list_eqb_eq _ _ _ H). split; congruence.
-  - rewrite (list_eqb_eq _ _ _ H). split; congruence.
+    try (split; discriminate); try (split; reflexivity);
+    rewrite ?andb_true_iff, ?Nat.eqb_eq, ?ity_eqb_eq, ?Z.eqb_eq, ?Bool.eqb_true_iff;
+    repeat match goal with
+           | H : forall b, value_eqb _ b = true <-> _ |- _ => rewrite H; clear H
+           | H : Forall _ _ |- _ => rewrite (list_eqb_eq _ _ _ H); clear H
+           end;
+    (split; [intuition congruence | intros E; inversion E; auto]).
 Qed.
 
 Lemma key_eqb_eq : forall a b : inst_key, key_eqb a b = true <-> a = b.
@@ -602,6 +632,31 @@ Qed.
 (* [RStuck] is propagated unchanged by every construct (like [RFuel]); a
    computation that is not stuck never looked at a missing table entry, so it
    is unchanged when functions are appended to the program table. *)
+Ltac ext_call Hne call bad lem :=
+  let N := fresh "N" in
+  assert (N : call <> bad)
+    by (let X := fresh "X" in intro X; rewrite X in Hne; apply Hne; reflexivity);
+  rewrite (lem N); clear N; revert Hne; destruct call; intros Hne.
+
+Ltac stmts_ext_go ev Hev IH Hne :=
+  cbv beta iota in Hne |- *;
+  first
+    [ reflexivity
+    | exfalso; apply Hne; reflexivity
+    | apply Hev; exact Hne
+    | apply IH; exact Hne
+    | match type of Hne with
+      | (match ?x with _ => _ end) <> _ =>
+          lazymatch x with
+          | ev ?en ?out ?a =>
+              ext_call Hne x RStuck (Hev en out a)
+          | eval_stmts ev ?en ?out ?ss ?tl =>
+              ext_call Hne x RStuck (IH tl en out)
+          | _ => revert Hne; destruct x; intros Hne
+          end;
+          stmts_ext_go ev Hev IH Hne
+      end ].
+
 Section EvExt.
   Variables ev ev' : env -> list event -> expr -> res.
   Hypothesis Hev : forall en out e, ev en out e <> RStuck -> ev' en out e = ev en out e.
@@ -626,28 +681,11 @@ Section EvExt.
       eval_stmts ev en out ss tail <> RStuck ->
       eval_stmts ev' en out ss tail = eval_stmts ev en out ss tail.
   Proof.
-    induction ss as [|s0 ss IH]; intros tail en out Hne.
-    - cbn [eval_stmts] in *. apply Hev. exact Hne.
-    - assert (Hoth : nonlet s0 ->
-                     eval_stmts ev' en out (s0 :: ss) tail = eval_stmts ev en out (s0 :: ss) tail).
-      { intros Hn. rewrite (eval_stmts_nonlet ev en out s0 ss tail Hn) in Hne |- *.
-        rewrite (eval_stmts_nonlet ev' en out s0 ss tail Hn).
-        assert (N : ev en out s0 <> RStuck).
-        { intro X. rewrite X in Hne. apply Hne. reflexivity. }
-        rewrite (Hev en out s0 N). clear N. revert Hne.
-        destruct (ev en out s0) as [en1 out1 c| | | |]; intros Hne; try reflexivity.
-        destruct c; try reflexivity.
-        apply IH. exact Hne. }
-      destruct s0; try (apply Hoth; exact I).
-      cbn [eval_stmts] in Hne |- *.
-      assert (N : ev en out s0 <> RStuck).
-      { intro X. rewrite X in Hne. apply Hne. reflexivity. }
-      rewrite (Hev en out s0 N). clear N. revert Hne.
-      destruct (ev en out s0) as [en1 out1 c| | | |]; intros Hne; try reflexivity.
-      destruct c as [v| | |]; try reflexivity.
-      assert (N : eval_stmts ev ((x, m, v) :: en1) out1 ss tail <> RStuck).
-      { intro X. rewrite X in Hne. apply Hne. reflexivity. }
-      rewrite (IH tail _ _ N). reflexivity.
+    induction ss as [|s0 ss IH]; intros tail en out Hne; cbn [eval_stmts] in *.
+    - apply Hev. exact Hne.
+    - (* [let], [defer] (the rest of the block first, then the deferred
+         expression) and plain statements *)
+      destruct s0; stmts_ext_go ev Hev IH Hne.
   Qed.
 
   Lemma eval_place_ext_stuck : forall e en out,
@@ -667,12 +705,6 @@ Section EvExt.
       rewrite (IHe en out N). reflexivity.
   Qed.
 End EvExt.
-
-Ltac ext_call Hne call bad lem :=
-  let N := fresh "N" in
-  assert (N : call <> bad)
-    by (let X := fresh "X" in intro X; rewrite X in Hne; apply Hne; reflexivity);
-  rewrite (lem N); clear N; revert Hne; destruct call; intros Hne.
 
 Ltac ext_go rec Hord Hne :=
   cbv beta iota in Hne |- *;
